@@ -65,7 +65,7 @@ pub fn data_strategy(max: u32) -> impl Strategy<Value = DataSpec> {
     (kind, len_strategy(max), any::<u32>(), any::<u16>(), any::<u16>()).prop_map(move |(kind, len, seed, a, b)| DataSpec {
         kind,
         // the boundary family needs one full block plus a tail of a few KiB
-        len: if kind == 6 { (BLOCK + 1025 + len % 24_000).min(max) } else { len },
+        len: if kind == 6 { (BLOCK + 1025 + len % 100_000).min(max) } else { len },
         seed,
         a,
         b,
@@ -212,25 +212,24 @@ fn fill_boundary(out: &mut Vec<u8>, n_total: usize, rng: &mut Rng, a: u16, b: u1
         }
     }
     out.extend_from_slice(&block);
-    // tail: counts(s) = 1 + s*s/64, shuffled, same rank order
+    // tail: every symbol present, counts(s) ~ 1 + s*s*k (strongly skewed, same rank order), shuffled
     let tail = n_total - first;
     if tail > 0 {
-        let mut t: Vec<u8> = vec![];
-        'outer: loop {
-            for s in 0..n {
-                let c = 1 + s * s / 64;
-                for _ in 0..c {
-                    t.push(s as u8);
-                    if t.len() >= tail {
-                        break 'outer;
-                    }
-                }
-            }
+        let sq: u64 = (0..n as u64).map(|s| s * s).sum();
+        let spare = tail.saturating_sub(n) as u64;
+        let mut t: Vec<u8> = Vec::with_capacity(tail + n);
+        for s in 0..n {
+            let c = 1 + (spare * (s * s) as u64 / sq.max(1)) as usize;
+            t.resize(t.len() + c, s as u8);
+        }
+        while t.len() < tail {
+            t.push((n - 1) as u8);
         }
         for i in (1..t.len()).rev() {
             let j = rng.below(i as u64 + 1) as usize;
             t.swap(i, j);
         }
+        t.truncate(tail);
         out.extend_from_slice(&t);
     }
 }
